@@ -76,6 +76,19 @@ func (m *Mast) loadPersisted(ctx context.Context, l string) (*mastNode, error) {
 	if m.debug {
 		fmt.Printf("loaded node %s->%v\n", l, node)
 	}
+	if len(node.Key) != len(node.Value) || len(node.Link) != len(node.Key)+1 {
+		return nil, fmt.Errorf("improperly-formatted node %s: %d keys, %d values, %d links",
+			l, len(node.Key), len(node.Value), len(node.Link))
+	}
+	for i := 1; i < len(node.Key); i++ {
+		cmp, err := m.keyOrder(node.Key[i-1], node.Key[i])
+		if err != nil {
+			return nil, fmt.Errorf("key order in node %s: %w", l, err)
+		}
+		if cmp >= 0 {
+			return nil, fmt.Errorf("keys of node %s are not in ascending order; ensure using same key order as source", l)
+		}
+	}
 	validateNode(ctx, &node, m)
 	if m.nodeCache != nil {
 		m.nodeCache.Add(cacheKey, &node)
